@@ -362,7 +362,7 @@ func (lr *lifeRun) probe(b *rosmar.Bucket) HandleObs {
 					_ = it.Close()
 					sort.Strings(ids)
 					if strings.Join(ids, ",") != strings.Join(kv, ",") {
-						o.Q = "differs:" + c + " query=" + strings.Join(ids, ",") + " kv=" + strings.Join(kv, ",")
+						o.Q = "differs:" + c
 					}
 				}
 			}
